@@ -17,7 +17,7 @@ PROP=$(sed -n 's/.*"property": *"\(C[0-9]*\)".*/\1/p' "$SEED/meta.json" | head -
 export CARGO_NET_OFFLINE=true
 export CARGO_TARGET_DIR="$W/target"
 mkdir -p "$W/repo"
-sync_repo() { rsync -a --delete --exclude target --exclude .git --exclude .verif-mc --exclude .verif-out /repo/ "$W/repo/"; }
+sync_repo() { rsync -a --delete --exclude target --exclude .git --exclude .verif-mc --exclude .verif-out /repo/ "$W/repo/" && find "$W/repo/src" "$W/repo/tests" "$W/repo/Cargo.toml" -type f -exec touch {} +; }
 run_tests() { (cd "$W/repo" && cargo test --workspace --no-fail-fast --offline --lib --tests 2>&1); }
 
 sync_repo
